@@ -2,20 +2,26 @@
 open, bulk transfer with self-perpetuating writer and reader; routes of 1-3 queue hops each
 way; bandwidth 0 or 5 kB/s - 50 MB/s; latency 0 - 500 ms; capacity unlimited or from one
 full segment up to megabytes, including receiver-side bottlenecks; drops only by the queues
-themselves. With finite capacities payload flows in one direction at a time (the reverse
-transfer starts long after the first one has ended)."""
+themselves. The main transfer is sent by the connecting socket or (every other scenario) by the
+accepted socket, the receiver-side bottleneck sits on the main receiver's incoming route. With
+finite capacities payload flows in one direction at a time (the reverse transfer starts long
+after the first one has ended); with unlimited queues both directions may carry bulk data at once."""
 import random
 
 BW = [0, 5000, 20000, 100000, 1000000, 50000000]
 LAT = [0, 1000, 1000000, 20000000, 500000000]
 
 
-def scenario(rng, sid, tier):
+def scenario(rng, sid, tier, force_total=None):
     mtu = rng.choice([1475, 1475, 500, 100, 3000])
     seg = mtu + 40
-    unlimited = rng.random() < 0.35
+    unlimited = rng.random() < 0.2
+    # who sends the main transfer: the connecting socket s0 (node n0, 10.0.0.1) or the accepted socket
+    # s1 (node n1, 10.0.0.2) -- the accepted side sets up MSS / window in internal_connect
+    swap = rng.random() < 0.5
     lines = ["node n0 10.0.0.1", "node n1 10.0.0.2", "mtu * %d" % mtu]
     hid = [0]
+    capof = {}
     def hops(prefix, n, bottleneck):
         names = []
         for k in range(n):
@@ -25,16 +31,17 @@ def scenario(rng, sid, tier):
             else:
                 x = rng.random()
                 if bottleneck and k == n - 1: cap = seg * rng.choice([1, 1, 2, 3])
-                elif x < 0.4: cap = seg * rng.choice([1, 2, 5]) + rng.choice([0, 0, 1, 39])
-                elif x < 0.7: cap = rng.choice([4000, 20000, 200000])
+                elif x < 0.45: cap = seg * rng.choice([1, 1, 2, 5]) + rng.choice([0, 0, 1, 39])
+                elif x < 0.75: cap = rng.choice([4000, 20000, 200000])
                 else: cap = rng.choice([0, 2000000])
                 if 0 < cap < seg: cap = seg
             lines.append("hop %s queue bw=%d lat=%d cap=%d" % (nm, rng.choice(BW), rng.choice(LAT), cap))
-            names.append(nm)
+            names.append(nm); capof[nm] = cap
         return names
     rx_bottleneck = rng.random() < 0.3
-    o0 = hops("a", rng.choice([1, 1, 2]), False); i0 = hops("b", rng.choice([0, 1]), False)
-    o1 = hops("c", rng.choice([1, 1, 2]), False); i1 = hops("d", rng.choice([0, 1, 1]), rx_bottleneck)
+    # the receiver-side bottleneck sits on the incoming route of the main transfer's receiver
+    o0 = hops("a", rng.choice([1, 1, 2]), False); i0 = hops("b", rng.choice([0, 1, 1] if swap else [0, 1]), rx_bottleneck and swap)
+    o1 = hops("c", rng.choice([1, 1, 2]), False); i1 = hops("d", rng.choice([0, 1] if swap else [0, 1, 1]), rx_bottleneck and not swap)
     net = hops("n", rng.choice([0, 1]), False)
     lines += ["hop p0 probe", "hop p1 probe"]
     lines.append("route out 10.0.0.1 p0 %s" % " ".join(o0))
@@ -42,15 +49,23 @@ def scenario(rng, sid, tier):
     if i0: lines.append("route in 10.0.0.1 %s" % " ".join(i0))
     if i1: lines.append("route in 10.0.0.2 %s" % " ".join(i1))
     if net: lines.append("route net * %s" % " ".join(net))
-    big = [1, 100, mtu, mtu + 1, 5000, 20000, 60000, 200000] if tier == "quick" else [1, 100, mtu, 5000, 60000, 300000, 2000000]
-    total = rng.choice(big)
-    chunk = rng.choice([1, 100, 1000, mtu, 7000, 65536, 1000000])
+    fwd = (o1 + net + i0) if swap else (o0 + net + i1)
+    fcaps = [capof[h] for h in fwd if capof[h] > 0]
+    # sub-segment totals (1, 100) cannot fill any queue: one sentinel scenario each (generate), not a third of the draws
+    big = [mtu, mtu + 1, 5000, 20000, 60000, 200000] if tier == "quick" else [1, 100, mtu, 5000, 60000, 300000, 2000000]
+    total = force_total or rng.choice(big)
+    if fcaps and min(fcaps) <= 20000 and force_total is None and rng.random() < 0.5:
+        # enough data to overrun the tightest queue of the forward path several times
+        total = max(total, 5 * min(fcaps) + rng.choice([0, 1, mtu // 2]))
+    chunk = rng.choice([1, 100, 1000, mtu, mtu + mtu // 2, 7000, 65536, 1000000])
     # keep the number of segments (and events) of one scenario bounded
-    maxseg = 400 if tier == "quick" else 2500
+    maxseg = 400 if tier == "quick" else 1500
     if total / max(1, min(chunk, mtu)) > maxseg: chunk = max(chunk, total // maxseg + 1)
     if total / max(1, min(chunk, mtu)) > maxseg: total = maxseg * min(chunk, mtu)
     cap_r = rng.choice([1, 100, 1475, 4096, 65536])
     if total / cap_r > 4000: cap_r = 4096
+    # main writer / reader: socket, the context it starts in (its connect / accept handler)
+    (w, wctx), (r, rctx) = (("s1", "h0"), ("s0", "h1")) if swap else (("s0", "h1"), ("s1", "h0"))
     P = []
     P += ["a0.new n1", "a0.open v4", "a0.bind 0.0.0.0:8000", "a0.listen", "s1.new n1", "s0.new n0"]
     accept_late = rng.random() < 0.2
@@ -61,43 +76,66 @@ def scenario(rng, sid, tier):
         P += ["a0.accept s1 h0"]; lines_acc = []
     P += ["s0.connect 10.0.0.2:8000 h1"]
     prog = ["do top " + x for x in P] + lines_acc
-    if rng.random() < 0.3:
+    if swap and fcaps and min(fcaps) < seg + 28:
+        # OPEN FINDING avoided here (witness corpus/_defects/c06_accepted_writer_behind_synack.scn; same family
+        # as corpus/_defects/c06_sole_segment_dropped.scn). The accept handler runs at the instant the 28-byte
+        # SYN-ACK is put on the wire. A data segment (seg = mtu + 40 bytes) written right then travels behind
+        # it through the same FIFO hops; a hop with 0 < cap < seg + 28 that still holds the SYN-ACK tail-drops
+        # it, and when that happens to every segment of the first window nothing is left in flight, no ACK
+        # comes back and the sender (no retransmission timer) never resends: run() returns with the data
+        # unsent. Precise condition avoided: the main writer is the ACCEPTED socket starting in its accept
+        # handler AND some queue on its forward path (out-route of 10.0.0.2 ++ net ++ in-route of 10.0.0.1) has
+        # 0 < cap < seg + 28. With every finite cap >= seg + 28 the first segment always fits behind the
+        # SYN-ACK, its ACK returns and triggers the resends, so the immediate start is kept there. Otherwise
+        # the writer starts from a timer at t = 10 s, long after the handshake (<= 4 hops x 500 ms each way,
+        # late accept <= 700 ms). The connecting socket is never affected: its SYN left the queues a round
+        # trip before its connect handler runs.
+        prog += ["do top t2.expires_at 10000000000", "do top t2.wait h92"]
+        wctx = "h92"
+    if force_total is None and rng.random() < 0.3:
         # phases of explicit writes of mixed sizes (sub-MSS and full segments) separated by idle
         # periods: the window sits between one and two segments when the next drop comes
         hid_ = [100]
         def nh():
             hid_[0] += 1; return hid_[0]
-        ctx = "h1"
+        ctx = wctx
         for phase in range(rng.choice([1, 2, 3])):
             for _ in range(rng.choice([1, 3, 8, 11, 15])):
                 h = nh()
                 ln = rng.choice([100, 100, 100, 1, mtu // 2, mtu, mtu, 2 * mtu, 3 * mtu + 7])
-                prog.append("do %s s0.write h%d stream=5 len=%d bufs=%d" % (ctx, h, ln, rng.choice([1, 1, 2])))
+                prog.append("do %s %s.write h%d stream=5 len=%d bufs=%d" % (ctx, w, h, ln, rng.choice([1, 1, 2])))
                 ctx = "h%d" % h
             if rng.random() < 0.7:
                 tk = nh(); hk = nh()
                 prog.append("do %s t%d.expires_after %d" % (ctx, tk, rng.choice([1000000, 300000000, 5000000000])))
                 prog.append("do %s t%d.wait h%d" % (ctx, tk, hk))
                 ctx = "h%d" % hk
-        prog.append("do h0 s1.read_loop h3 cap=%d" % cap_r)
+        prog.append("do %s %s.read_loop h3 cap=%d" % (rctx, r, cap_r))
         prog.append("do top run")
         return "== %s\n%s\n%s\nend\n" % (sid, "\n".join(lines), "\n".join(prog))
-    prog.append("do h1 s0.write_loop h2 stream=5 total=%d chunk=%d" % (total, chunk))
-    prog.append("do h0 s1.read_loop h3 cap=%d" % cap_r)
+    prog.append("do %s %s.write_loop h2 stream=5 total=%d chunk=%d" % (wctx, w, total, chunk))
+    prog.append("do %s %s.read_loop h3 cap=%d" % (rctx, r, cap_r))
     if rng.random() < 0.4:
-        # the reverse transfer: simultaneously when queues are unlimited, else long afterwards
-        total2 = rng.choice([1, 3000, 40000])
-        if unlimited and rng.random() < 0.6:
-            prog.append("do h0 s1.write_loop h4 stream=6 total=%d chunk=%d" % (total2, rng.choice([100, 5000])))
+        # the reverse transfer: simultaneously when queues are unlimited (any traffic pattern), else long afterwards
+        if unlimited:
+            total2 = rng.choice(big + [1, 100]); chunk2 = rng.choice([100, 1000, mtu, 5000, 7000, 65536])
+            if total2 / max(1, min(chunk2, mtu)) > maxseg: chunk2 = max(chunk2, total2 // maxseg + 1)
+            if total2 / max(1, min(chunk2, mtu)) > maxseg: total2 = maxseg * min(chunk2, mtu)
+            prog.append("do %s %s.write_loop h4 stream=6 total=%d chunk=%d" % (rctx, r, total2, chunk2))
         else:
+            total2 = rng.choice([1, 3000, 40000])
             prog += ["do top t1.expires_at 4000000000000", "do top t1.wait h91",
-                     "do h91 s1.write_loop h4 stream=6 total=%d chunk=%d" % (total2, rng.choice([100, 5000]))]
-        prog.append("do h1 s0.read_loop h5 cap=%d" % rng.choice([100, 4096, 65536]))
+                     "do h91 %s.write_loop h4 stream=6 total=%d chunk=%d" % (r, total2, rng.choice([100, 5000]))]
+        prog.append("do %s %s.read_loop h5 cap=%d" % (wctx, w, rng.choice([100, 4096, 65536])))
     prog.append("do top run")
     return "== %s\n%s\n%s\nend\n" % (sid, "\n".join(lines), "\n".join(prog))
 
 
 def generate(seed, tier):
     rng = random.Random(seed * 2654435761 % (2**31) + 9)
-    n = 120 if tier == "quick" else 6000
-    return [scenario(rng, "g%d" % i, tier) for i in range(n)]
+    n = 400 if tier == "quick" else 6000
+    out = [scenario(rng, "g%d" % i, tier) for i in range(n)]
+    if tier == "quick":
+        # the sub-segment transfers, once each
+        out[0] = scenario(rng, "g0", tier, force_total=1); out[1] = scenario(rng, "g1", tier, force_total=100)
+    return out
